@@ -307,7 +307,7 @@ class DocGen:
         budget = [rng.choice([1, 3, 8, 20, self.budget])]
         self.text_has_beyond64 = False  # an out-of-range integer TOKEN occurs in the text (even if a duplicate name hides it)
         r = rng.random()
-        if r < 0.12:  # deep spine reaching the nesting limit
+        if r < 0.12 and self.max_depth >= 1:  # deep spine reaching the nesting limit
             t, v = self.spine(rng.randrange(max(1, self.max_depth - 3), self.max_depth + 1))
         else:
             t, v = self.value(0, budget)
